@@ -206,9 +206,9 @@ def tol_inv(d, mval):
     if d["prior"] == "uniform":
         return Fraction(0) if d["tr"] == "identity" else 8 * ulp(max(abs(d["lo"]), abs(d["hi"])))
     lnb, mt, _ = log_stats(d)
-    if d["tr"] == "identity":
-        return 4 * ulp(mval)
-    return abs(mval) * (Fraction(lnb) * 8 * ulp(max(mt, 1e-300)) + 4 * U)
+    # base ** t: any implementation of pow may err by ~|t ln b| ulp of the result (exp(t ln b) does); normalize adds the
+    # rounding of t itself
+    return abs(mval) * (Fraction(lnb) * (4 if d["tr"] == "identity" else 8) * ulp(max(mt, 1.0)) + 4 * U)
 
 
 # ----------------------------------------------------------------------------------------------- the check
@@ -248,7 +248,7 @@ def run_space(dims, X, space=None, dim_level=False):
         X2 = space.inverse_transform(Xt)
     except (IndexError, KeyError, ValueError, TypeError) as e:
         return dict(res, ok=False, clause="inverse_raises:" + type(e).__name__, sig=dict(sigx, clause="inverse_raises:" + type(e).__name__),
-                    detail=dict(error=repr(e), Xt=np.asarray(Xt).tolist()))
+                    detail=dict(error=repr(e), Xt=np.asarray(Xt).tolist(), model_of_pinned_code=today_model(m, dims, msp, X, Xt)))
     Xt = np.asarray(Xt)
     if Xt.ndim != 2:
         return dict(res, ok=False, clause="shape_transform", detail=dict(shape=list(Xt.shape)))
@@ -275,6 +275,7 @@ def run_space(dims, X, space=None, dim_level=False):
                             off = "far"
             sig.update(kinds="+".join(sorted(kinds)), off=off)
         if code in (1, 3):
+            detail.update(model_of_pinned_code=today_model(m, dims, msp, X, Xt))
             detail.update(rows_in=len(X), rows_t=int(Xt.shape[0]), rows_out=len(X2), n_dims=len(dims), t_dims=int(ntd))
         return dict(res, ok=False, clause=clause, sig=sig, detail=detail)
 
@@ -331,6 +332,18 @@ def run_space(dims, X, space=None, dim_level=False):
                 return dict(res, ok=False, kind="corr", clause="model_roundtrip", sig={"dimkey": dim_key(dims[k])},
                             detail=dict(row=i, col=k, model=float(mv), x=float(xv)))
     return res
+
+
+def today_model(m, dims, msp, X, Xt):
+    """what Model.inverse_today (the model of the PINNED code, the one the *_refuted theorems are about) predicts for the
+    implementation's warped values: 'IndexError' or the number of rows - reported next to a shape failure"""
+    try:
+        XtL = [[q(fr(v)) for v in row] for row in np.asarray(Xt).tolist()]
+        lgt = lg_table(dims, X)
+        r = m.call(F_INVERSE_TODAY, [msp, XtL, lgt, pw_table(m.call(F_PWARGS, [msp, XtL, lgt]))])
+        return "IndexError" if r == [] else "rows=%d" % len(r[0])
+    except Exception as e:  # diagnostic only
+        return "n/a (%s)" % type(e).__name__
 
 
 def _tsize(d):
